@@ -74,7 +74,7 @@ func (w recWRF) ReadFrom(src io.Reader) (int64, error) {
 // 0..7 SetStatus(code) ; h SetHeader ; e Write("") ; w Write("ab") ; f Flush ; E http.Error(418) ; R Redirect(302) ; T Text(201,"hi") ; S Stream(203, reader without WriteTo)
 var c08Status = map[byte]int{'0': -1, '1': 0, '2': 200, '3': 304, '4': 201, '5': 404, '6': 500, '7': 204, '8': 103, '9': 100}
 
-const c08Ops = "0123456789hewfERTStWIH"
+const c08Ops = "0123456789hewfERTStWIHA"
 
 // c08Core: one operation per kind of effect (invalid status, a status, header, empty write, write, flush, error helper,
 // text helper, string write, stream)
@@ -102,6 +102,9 @@ func c08Apply(c *rux.Context, op byte) {
 		c.WriteString("ab")
 	case 'I':
 		_, _ = io.WriteString(c.Resp, "ab")
+	case 'A':
+		// aborts the chain with a status and no message (the handlers that have not started yet never run)
+		c.AbortWithStatus(403)
 	case 'H':
 		// a net/http handler wrapped into the chain answers with http.Error
 		rux.WrapH(http.HandlerFunc(func(w http.ResponseWriter, _ *http.Request) { http.Error(w, "teapot", 418) }))(c)
@@ -126,6 +129,7 @@ type c08Model struct {
 	answers   map[int]byte
 	panicked  bool
 	ctSet     bool // a Content-Type header is present (http.Redirect writes its body only when none is)
+	head      bool // the request is a HEAD request (http.Redirect writes its body for GET only)
 }
 
 func (m *c08Model) commit() {
@@ -182,6 +186,8 @@ func (m *c08Model) apply(op byte) {
 	case 'f':
 		m.commit()
 		m.log = append(m.log, "F")
+	case 'A':
+		m.setStatus(403)
 	case 'E', 'H':
 		m.ctSet = true
 		m.setStatus(418)
@@ -190,7 +196,9 @@ func (m *c08Model) apply(op byte) {
 		m.setStatus(302)
 		if !m.ctSet {
 			m.ctSet = true
-			m.write("<a href=\"/to\">Found</a>.\n\n")
+			if !m.head {
+				m.write("<a href=\"/to\">Found</a>.\n\n")
+			}
 		}
 	case 'S':
 		m.ctSet = true
@@ -245,6 +253,7 @@ type c08Run_ struct {
 	Hj      bool         `json:"after_hijacked_request,omitempty"`    // the router served a request whose handler hijacked its connection right before
 	WS      bool         `json:"websocket_upgrade_headers,omitempty"` // the request carries "Connection: upgrade" and "Upgrade: websocket" (no upgrade takes place)
 	Pn      bool         `json:"panic_then_hook_writes,omitempty"`    // the main handler panics at its end; the router's OnPanic hook writes "H"
+	Head    bool         `json:"head_request_on_get_route,omitempty"` // the request is a HEAD request, served by the GET-only route
 }
 
 // recWHJ is a recording writer that can be hijacked
@@ -346,6 +355,10 @@ func (h *c08Harness) exec(run *c08Run_) (w *recW, length, status int, sampled bo
 		_ = try(func() { h.r.ServeHTTP(recWHJ{&recW{h: http.Header{}}}, httptest.NewRequest("GET", "/hj", nil)) })
 	}
 	h.req.Header = http.Header{}
+	h.req.Method = "GET"
+	if run.Head {
+		h.req.Method = "HEAD"
+	}
 	if run.WS {
 		h.req.Header.Set("Connection", "keep-alive, Upgrade")
 		h.req.Header.Set("Upgrade", "websocket")
@@ -360,9 +373,17 @@ func (h *c08Harness) exec(run *c08Run_) (w *recW, length, status int, sampled bo
 
 func c08Check(h *c08Harness, run c08Run_, st *fw.Stats) *fw.Viol {
 	st.Evals++
-	m := &c08Model{answers: run.Answers}
+	m := &c08Model{answers: run.Answers, head: run.Head}
+	// an abort in the middleware's part before Next means the main handler never starts (nor what it would trigger)
+	mainRuns := !strings.Contains(run.Ops[:run.I], "A")
 	for k := 0; k < len(run.Ops); k++ {
+		if !mainRuns && k >= run.I && (k < run.J || (run.K > 0 && k >= run.K)) {
+			continue
+		}
 		m.apply(run.Ops[k])
+	}
+	if !mainRuns {
+		run.Redisp, run.Pn = false, false
 	}
 	if run.Redisp {
 		// the re-dispatched chain belongs to the same request: its write goes through the same single commit
@@ -379,8 +400,8 @@ func c08Check(h *c08Harness, run c08Run_, st *fw.Stats) *fw.Viol {
 	}
 	w, length, status, sampled, pv := h.exec(&run)
 	desc := func() string {
-		return fmt.Sprintf("ops %q (middleware before Next: %q, main handler: %q, middleware after Next: %q), write answers %v [0-9=SetStatus(-1,0,200,304,201,404,500,204,103,100) h=SetHeader e=Write(\"\") w=Write(\"ab\") f=Flush E=http.Error(418) R=Redirect(302) T=Text(201) t=Text(200) W=c.WriteString I=io.WriteString(c.Resp) S=Stream(203) H=wrapped net/http handler calling http.Error(418)]%s",
-			run.Ops, run.Ops[:run.I], run.Ops[run.I:run.J]+map[bool]string{true: " then HandleContext to a route writing \"cd\"", false: ""}[run.Redisp], c08Tail(run), fmtAnswers(run.Answers), map[bool]string{true: "; the main handler then panics and the router's OnPanic hook writes \"H\"", false: ""}[run.Pn])
+		return fmt.Sprintf("ops %q (middleware before Next: %q, main handler: %q, middleware after Next: %q), write answers %v [0-9=SetStatus(-1,0,200,304,201,404,500,204,103,100) h=SetHeader e=Write(\"\") w=Write(\"ab\") f=Flush E=http.Error(418) R=Redirect(302) T=Text(201) t=Text(200) W=c.WriteString I=io.WriteString(c.Resp) S=Stream(203) H=wrapped net/http handler calling http.Error(418) A=AbortWithStatus(403)]%s%s",
+			run.Ops, run.Ops[:run.I], run.Ops[run.I:run.J]+map[bool]string{true: " then HandleContext to a route writing \"cd\"", false: ""}[run.Redisp], c08Tail(run), fmtAnswers(run.Answers), map[bool]string{true: "; the main handler then panics and the router's OnPanic hook writes \"H\"", false: ""}[run.Pn], map[bool]string{true: "; HEAD request", false: ""}[run.Head])
 	}
 	if pv != nil && (!m.panicked || run.Pn) {
 		return &fw.Viol{Sig: "writer:panic", Msg: fmt.Sprintf("%s: ServeHTTP panicked: %v", desc(), pv)}
@@ -637,6 +658,9 @@ func c08RunCase(c c08Case, st *fw.Stats) []fw.Viol {
 			// ... for a request that carries websocket-upgrade headers (which nobody acts upon)
 			try1(c08Run_{Ops: ops, I: 0, J: d, WS: true})
 			try1(c08Run_{Ops: ops, I: d / 2, J: d, WS: true})
+			// ... as a HEAD request (the route is registered for GET only)
+			try1(c08Run_{Ops: ops, I: 0, J: d, Head: true})
+			try1(c08Run_{Ops: ops, I: d / 2, J: d, Head: true})
 			// ... with the main handler panicking at its end and the router's OnPanic hook writing a byte
 			try1(c08Run_{Ops: ops, I: 0, J: d, Pn: true})
 			try1(c08Run_{Ops: ops, I: d / 2, J: d, Pn: true})
@@ -737,7 +761,7 @@ func c08Gen(tier string, emit func(c08Case)) {
 var c08Spec = fw.Spec[c08Case]{
 	ID:    "C08",
 	Level: "model_checking",
-	Rule: "depth-bounded exhaustive search: ALL operation sequences of length <=4 (thorough 6) over 22 operations {SetStatus(-1,0,200,304,201,404,500,204,103,100), SetHeader, Write(\"\"), Write(\"ab\"), Flush, http.Error(418), Redirect(302), Text(201), Text(200), Context.WriteString, io.WriteString(c.Resp), Stream(203), http.Error(418) from a net/http handler wrapped with WrapH} x every split of the sequence over middleware-before-Next / main handler / middleware-after-Next (also with the tail run by the OnError hook, with the main handler panicking at its end and an OnPanic hook writing a byte, with a HandleContext re-dispatch, right after a request that hijacked its connection, for a request carrying websocket-upgrade headers, and on an underlying writer implementing io.ReaderFrom) x every assignment of <=2 non-default answers (short write, error) to the underlying writes (every split up to length 3 (4), 4 representative splits plus OnError / re-dispatch / ReaderFrom variants at length 4 (5), <=1 fault at length 6 over the ten-operation core alphabet {SetStatus(-1), SetStatus(201), SetHeader, Write(\"\"), Write, Flush, http.Error, Text(201), WriteString, Stream} in the thorough tier); " +
+	Rule: "depth-bounded exhaustive search: ALL operation sequences of length <=4 (thorough 6) over 23 operations {SetStatus(-1,0,200,304,201,404,500,204,103,100), SetHeader, Write(\"\"), Write(\"ab\"), Flush, http.Error(418), Redirect(302), Text(201), Text(200), Context.WriteString, io.WriteString(c.Resp), Stream(203), http.Error(418) from a net/http handler wrapped with WrapH, AbortWithStatus(403) without message} x every split of the sequence over middleware-before-Next / main handler / middleware-after-Next (also as a HEAD request served by the GET route, with the tail run by the OnError hook, with the main handler panicking at its end and an OnPanic hook writing a byte, with a HandleContext re-dispatch, right after a request that hijacked its connection, for a request carrying websocket-upgrade headers, and on an underlying writer implementing io.ReaderFrom) x every assignment of <=2 non-default answers (short write, error) to the underlying writes (every split up to length 3 (4), 4 representative splits plus OnError / re-dispatch / ReaderFrom variants at length 4 (5), <=1 fault at length 6 over the ten-operation core alphabet {SetStatus(-1), SetStatus(201), SetHeader, Write(\"\"), Write, Flush, http.Error, Text(201), WriteString, Stream} in the thorough tier); " +
 		"plus the requests the router answers by itself (default and silent custom 404 / 405 responders, the body-less OPTIONS reply, do-nothing handlers) on all 384 combinations of 9 router settings; " +
 		"oracle = 20-line writer specification compared with the complete event log of a recording ResponseWriter+Flusher; non-trivial = sequence containing a write, flush or helper",
 	Assume: []string{"Text (WriteBytes) is documented to panic when the underlying write fails; after such a panic only the log so far is compared", "Length() is compared once a header was committed"},
